@@ -353,6 +353,13 @@ class ZFn:
                             if k1 in keys: W[k1] = z
                             tmp.append(W)
                     ns = tmp
+                cp_ = getattr(s, "call_pairs", {}).get(t["dest"]["local"]) if t.get("dest") and not t["dest"]["proj"] else None
+                if cp_ and cp_[0] in keys and cp_[1] in keys:
+                    tmp = []
+                    for V in ns:
+                        for z in ("Z", "NZ"):
+                            W = dict(V); W[cp_[0]] = z; W[cp_[1]] = z; tmp.append(W)
+                    ns = tmp
                 if t["target"] is not None: succ = [(t["target"], ns)]
             elif t["k"] in ("assert", "drop"): succ = [(t["target"], states)]
             for nb, sts in succ:
@@ -395,6 +402,20 @@ def analyse(f, ARR, body, summaries, mode="sites", ret_pairs=None, ctor_sinks=No
         elif "impl TooDeeOps" in b["locals"][i] or "impl ops::TooDeeOps" in b["locals"][i] or re.search(r"&'\S+ (mut )?Self", b["locals"][i]) or re.match(r"^&('\S+ )?(mut )?[A-Z]\w*/#\d+$", b["locals"][i]):
             g1, g2 = ("G", i, "num_rows"), ("G", i, "num_cols")
             add(g1); add(g2); entry_pairs.append((g1, g2))
+
+    # an array VALUE produced by a call (`source.clone()`, a constructor): a valid array, so its two dimension fields obey the
+    # zero rule together (every construction site is itself an obligation of this rule)
+    Z.call_pairs = {}
+    for bl in b["blocks"]:
+        t = bl["term"]
+        if t and t["k"] == "call" and not bl["cleanup"] and t.get("dest") and not t["dest"]["proj"]:
+            dl_ = t["dest"]["local"]
+            ty_ = b["locals"][dl_]
+            k = arr_kind(ARR, ty_)
+            if k and not ty_.startswith("&") and len(Z.call_pairs) < 2:
+                rk, ck = ("L", dl_, ARR[k]["rows"]), ("L", dl_, ARR[k]["cols"])
+                add(rk); add(ck)
+                Z.call_pairs[dl_] = (rk, ck)
 
     # a bool local assigned on several branches (`a == 0 || b == 0`) that steers at least two switches: kept in the valuation
     # (as 0 / 1) so that both decisions agree
@@ -970,6 +991,17 @@ def r_nonzero(f):
                         add(rk); add(ck); pairs.append((rk, ck))
                     if sk and ck:
                         add(sk); imps.append((ck, sk))
+                # the getters of a concrete array type return the fields: `if !self.is_empty() { .. self.num_cols .. }` - linked
+                # as long as the function never stores to the two fields
+                if getters and rk and ck:
+                    stores_dim = any(st["k"] == "assign" and st["p"]["local"] == 1 and any(e["k"] == "field" and e["i"] in (fi["num_rows"], fi["num_cols"]) for e in st["p"]["proj"])
+                                     for bl in bd["blocks"] for st in bl["stmts"])
+                    if not stores_dim:
+                        gk_c, gk_r = ("G", 1, "num_cols"), ("G", 1, "num_rows")
+                        add(rk); add(ck)
+                        if (rk, ck) not in pairs:
+                            pairs.append((rk, ck))
+                        imps += [(gk_c, ck), (ck, gk_c), (gk_r, rk), (rk, gk_r)]
         try:
             Z.run(tracked, pairs, sinks, imps)
         except RecursionError:
